@@ -516,6 +516,7 @@ func isListScenario(sc *Scenario) bool {
 // ------------------------------------------------------------------ worker
 
 type task struct {
+	Reverse  bool   // connection-level scenarios: second default schedule (highest thread id when blocked)
 	Mode     string // explore | audit
 	Scenario string
 	Prop     string
@@ -584,6 +585,7 @@ func worker(tb []byte, progress func()) []byte {
 	if sc.ViaHandle {
 		e.Deviations = true
 		e.Shard, e.Of = t.Shard, t.Of
+		e.Reverse = t.Reverse
 	}
 	// determinism: the default schedule twice, identical observations
 	// (SPOP / SRANDMEMBER pick by Go map iteration order, which no seam can own without editing the
@@ -1040,6 +1042,17 @@ func main() {
 			for sh := 0; sh < shards; sh++ {
 				b, _ := json.Marshal(task{Mode: "explore", Scenario: sc.ID, Prop: prop, Bound: db, Max: cap, Shard: sh, Of: shards})
 				tasks = append(tasks, b)
+			}
+			if tier == "thorough" {
+				// the same ball around a second default schedule (clients and parsers before handlers)
+				rb := db
+				if rb > 2 {
+					rb = 2
+				}
+				for sh := 0; sh < 8; sh++ {
+					b, _ := json.Marshal(task{Mode: "explore", Scenario: sc.ID, Prop: prop, Bound: rb, Max: cap, Shard: sh, Of: 8, Reverse: true})
+					tasks = append(tasks, b)
+				}
 			}
 			continue
 		}
